@@ -24,7 +24,7 @@ def source(rng):
 
 
 def known_sources(sp):
-    out = list(sp.frm) + list(sp.withs) + [j for j, _ in sp.joins]
+    out = list(sp.frm) + list(sp.withs) + [j[0] for j in sp.joins]
     if sp.update is not None:
         out.append(sp.update)
     return out
@@ -38,10 +38,15 @@ def gen_crit(rng, sp, item, p_foreign, p_none):
         side = []
         for s in range(2):
             r = rng.random()
-            if r < p_none:
+            if rng.random() < 0.07:
+                side.append([["alq", rng.choice(["w1", "w2", "w3"])], "id"])
+            elif r < p_none:
                 side.append([None, rng.choice(["id", "k"])])
             elif r < p_none + p_foreign:
-                side.append([tab(rng, foreign=rng.random() < 0.5), "id"])
+                if rng.random() < 0.3:      # a WITH query that may or may not be defined (before or after the join)
+                    side.append([["alq", rng.choice(["w1", "w2", "w3"])], "id"])
+                else:
+                    side.append([tab(rng, foreign=rng.random() < 0.5), "id"])
             else:
                 side.append([rng.choice(pool), rng.choice(["id", "k"])])
         pairs.append(side)
@@ -56,8 +61,8 @@ def gen_rterm(rng, sp, depth, p_foreign):
     if sp.update is not None:
         own.append(sp.update)
     own += [t for t in sp.frm if t[0] == "tab"]
-    for _, cr in sp.joins:
-        own += list(cr or [])
+    for j in sp.joins:
+        own += list(j[1] or [])
 
     def fld():
         q = rng.random()
@@ -131,16 +136,19 @@ def q_call(rng, sp, malformed):
         dialect_calls += ["on_conflict", "do_nothing", "do_update", "where", "returning", "returning", "returning"]
     if ms or (malformed and rng.random() < 0.05):
         dialect_calls += ["top", "top"]
-    common = ["from", "from", "with", "into", "update", "delete", "select", "select", "columns", "insert", "groupby",
-              "rollup", "rollup", "join", "join", "join", "join", "render", "noise"]
+    common = ["from", "from", "with", "with", "into", "update", "delete", "select", "select", "columns", "insert", "set", "groupby",
+              "rollup", "rollup", "join", "join", "join", "join", "render", "render", "noise"]
     k = rng.choice(common + dialect_calls * 2)
     if pg and (sp.conflict or sp.nothing or sp.cupdates) and rng.random() < 0.5:
         # an ON CONFLICT clause is being built: stay on its guards (handlers, WHERE, render)
         k = rng.choice(["where", "where", "render", "render", "do_nothing", "do_update", "on_conflict", "returning"])
+    if any(j[2] for j in sp.joins) and rng.random() < 0.45:
+        # a join criterion refers to a WITH query: make the statement complete, define the query (or not), render
+        k = rng.choice(["render", "render", "render", "with", "select", "set", "insert"])
     if k == "from":
         return ["from", source(rng)]
     if k == "with":
-        return ["with", rng.choice(["w1", "w2"])]
+        return ["with", rng.choice(["w1", "w2", "w3"])]
     if k in ("into", "update"):
         return [k, ["tab", rng.choice(NAMES), None, None]]
     if k == "delete":
@@ -150,7 +158,9 @@ def q_call(rng, sp, malformed):
     if k == "columns":
         return ["columns", ["c1", "c2"][: rng.choice([1, 2])]]
     if k == "insert":
-        return ["insert", [1, 2][: rng.choice([1, 2])], rng.random() < 0.2]
+        return ["insert", [1, 2][: rng.choice([0, 1, 1, 2])], rng.random() < 0.2]
+    if k == "set":
+        return ["set"]
     if k == "groupby":
         return ["groupby", rng.choice([0, 1, 2])]
     if k == "rollup":
@@ -241,7 +251,7 @@ def gen_c(rng, malformed=False):
     calls = []
     for _ in range(rng.choice([2, 3, 4, 5, 6, 8])):
         k = rng.choice(["create_table", "temporary", "columns", "columns", "primary_key", "primary_key", "foreign_key",
-                        "foreign_key", "as_select", "noise"] + (["local", "preserve_rows", "temporary"] if (vert or (malformed and rng.random() < 0.2)) else []))
+                        "foreign_key", "as_select", "noise", "unlogged"] + (["local", "preserve_rows", "temporary"] if (vert or (malformed and rng.random() < 0.2)) else []))
         if k == "create_table":
             calls.append([k, "t1"])
         elif k in ("columns", "primary_key", "foreign_key"):
